@@ -141,6 +141,8 @@ def grid():
     add("comparison", cl.PostcodeComparison, "plain", lambda: cl.PostcodeComparison("postcode"))
     add("comparison", cl.PostcodeComparison, "latlong",
         lambda: cl.PostcodeComparison("postcode", lat_col="lat", long_col="long", km_thresholds=[1, 10]))
+    add("comparison", cl.PostcodeComparison, "latlong-default-thresholds",
+        lambda: cl.PostcodeComparison("postcode", lat_col="lat", long_col="long"))
     add("comparison", cl.EmailComparison, "plain", lambda: cl.EmailComparison("email"))
     add("comparison", cl.NameComparison, "plain", lambda: cl.NameComparison("first_name"))
     add("comparison", cl.NameComparison, "dmeta", lambda: cl.NameComparison("first_name", dmeta_col_name="dm_first_name",
